@@ -311,7 +311,8 @@ RECURSIVE SlotOccs(_, _, _)
 SlotOccs(K, m, t) ==
   UNION {UNION {LET f == NFields(t)[i]  s == SlotOf(K, m, t, f.n, j, f.c[j]) IN
                 IF s.g = "-" THEN SlotOccs(K, m, f.c[j])
-                ELSE {[g |-> s.g, k |-> NKind(t), fn |-> f.n, form |-> s.form]}
+                ELSE {[g |-> s.g, k |-> NKind(t), fn |-> f.n, form |-> s.form,
+                       flat |-> s.form = "expr" /\ FlattenSameOpBoolOp(K, m, t, f.n, s.g)]}
                 : j \in 1..Len(NFields(t)[i].c)} : i \in 1..Len(NFields(t))}
 TopOccs(K, m) == UNION {SlotOccs(K, m, K.T[j]) : j \in 1..Len(K.T)}
 CapKinds(K, m, g) == IF g = "" THEN {NKind(K.M[m].x)}
